@@ -54,6 +54,7 @@ type Val struct {
 	KLen  int // statically known slice length (0 = unknown; use KLenKnown)
 	KLenKnown bool
 	Typ   types.Type
+	CtxOf    string // this value is ctx.Done() of that context
 	SubKey   string // "sub_<Struct>_<field>" when this is the address of an embedded struct field
 	SubOwner string // the owning object's reference
 }
@@ -135,6 +136,8 @@ func newEnc(w *World, cs *Contracts, mods *ModAnalysis) *Enc {
 (assert (forall ((s Str)) (! (>= (strlen s) 0) :pattern ((strlen s)))))
 (assert (forall ((s Str)) (! (=> (= (strlen s) 0) (= s str_empty)) :pattern ((strlen s)))))
 (assert (forall ((a Str) (b Str)) (! (= (strlen (str_cat a b)) (+ (strlen a) (strlen b))) :pattern ((str_cat a b)))))
+(declare-fun sidx (Int Int) Int)
+(assert (forall ((o Int) (i Int)) (! (= (sidx o i) (+ o i)) :pattern ((sidx o i)))))
 (define-fun gdiv ((a Int) (b Int)) Int (ite (>= a 0) (div a b) (- (div (- a) b))))
 (define-fun gmod ((a Int) (b Int)) Int (- a (* b (gdiv a b))))
 (define-fun imin ((a Int) (b Int)) Int (ite (<= a b) a b))
